@@ -274,3 +274,117 @@ func progsSlowErrors(t *testing.T, prop string, modes []string) {
 		}
 	}
 }
+
+// ---------------------------------------------------------------- C05: request and response
+
+func init() {
+	// the producer sends the next element only after the consumer has received what the stage makes of the previous
+	// one (a request/response exchange, a batch whose results are awaited before the input is closed). A sequential
+	// stage has no reason to sit on a result: whatever it owes for the elements it has consumed is delivered to a
+	// waiting consumer without any further input event.
+	progs["ping-pong"] = func(c *caseT) string {
+		ctx, cancel := context.WithCancel(context.Background())
+		defer cancel()
+		xs := seqInts(1, c.N)
+		keep := func(x int) bool { return mix(x, c.FSeed)%3 != 0 }
+		in := make(chan int, c.Cap)
+		var outs []<-chan int
+		owed := func(x int) []int { return []int{x} } // what the stage delivers for x, in order (all outputs merged)
+		route := func(x int) int { return 0 }         // on which output
+		switch c.Mode {
+		case "Map":
+			o, e := pipe.Map(ctx, in, pipe.Pure(func(x int) int { return x * 3 }))
+			go func() {
+				for range e {
+				}
+			}()
+			outs = append(outs, o)
+			owed = func(x int) []int { return []int{x * 3} }
+		case "FMap":
+			o, e := pipe.FMap(ctx, in, pipe.LiftF(func(ctx context.Context, x int, out chan<- int) error {
+				for j := 0; j < x%3; j++ {
+					select {
+					case out <- x*10 + j:
+					case <-ctx.Done():
+					}
+				}
+				return nil
+			}))
+			go func() {
+				for range e {
+				}
+			}()
+			outs = append(outs, o)
+			owed = func(x int) []int {
+				var r []int
+				for j := 0; j < x%3; j++ {
+					r = append(r, x*10+j)
+				}
+				return r
+			}
+		case "Filter":
+			outs = append(outs, pipe.Filter(ctx, in, pipe.Pure(keep)))
+			owed = func(x int) []int {
+				if keep(x) {
+					return []int{x}
+				}
+				return nil
+			}
+		case "TakeWhile":
+			outs = append(outs, pipe.TakeWhile(ctx, in, pipe.Pure(func(x int) bool { return true })))
+		case "Take":
+			outs = append(outs, pipe.Take(ctx, in, c.N+1))
+		case "Partition":
+			l, r := pipe.Partition(ctx, in, pipe.Pure(keep))
+			outs = append(outs, l, r)
+			route = func(x int) int {
+				if keep(x) {
+					return 0
+				}
+				return 1
+			}
+		case "fork.Map":
+			o, e := fork.Map(ctx, 3, in, fork.Pure(func(x int) int { return x * 3 }))
+			go func() {
+				for range e {
+				}
+			}()
+			outs = append(outs, o)
+			owed = func(x int) []int { return []int{x * 3} }
+		case "fork.Filter":
+			outs = append(outs, fork.Filter(ctx, 3, in, fork.Pure(keep)))
+			owed = func(x int) []int {
+				if keep(x) {
+					return []int{x}
+				}
+				return nil
+			}
+		}
+		for _, x := range xs {
+			in <- x
+			for _, w := range owed(x) {
+				v, ok := <-outs[route(x)] // a stage that holds the result back leaves everybody waiting: the bubble's deadlock
+				if !ok || v != w {
+					return fmt.Sprintf("%s, request/response: for element %d the stage delivered %d (open=%v), the list function gives %d", c.Mode, x, v, ok, w)
+				}
+			}
+		}
+		close(in)
+		for i, o := range outs {
+			if v, ok := <-o; ok {
+				return fmt.Sprintf("%s, request/response: output %d delivered %d after the last response", c.Mode, i, v)
+			}
+		}
+		return ""
+	}
+}
+
+func progsPingPong(t *testing.T, prop string, modes []string) {
+	for _, m := range modes {
+		for _, n := range []int{1, 2, 9, 40} {
+			for _, cp := range []int{0, 1, 5} {
+				runProg(t, prop, &caseT{Stage: "prog/ping-pong", Mode: m, N: n, Cap: cp, FSeed: uint64(n + cp)})
+			}
+		}
+	}
+}
